@@ -2,9 +2,12 @@
 # usage: mutest.sh <patch.diff> <PID> [tier]  -- apply a seeded change to /repo, run the check, undo (evidence restored)
 set -u
 patch=$1; pid=$2; tier=${3:-quick}
+# one seeded change at a time: /repo is shared. NEVER commit in /repo while /tmp/REPO_MUTATED exists.
+exec 9>/tmp/repo-mutest.lock; flock 9
 cd /repo || exit 9
 if ! git diff --quiet; then echo "repo dirty"; exit 9; fi
 git apply "$patch" || { echo "patch does not apply"; exit 9; }
+echo "$patch" > /tmp/REPO_MUTATED
 cd /verif && cp evidence/$pid.json /tmp/ev-$pid.bak 2>/dev/null
 t0=$(date +%s)
 ./check $pid --tier $tier > /tmp/mutest-$pid.log 2>&1
@@ -12,4 +15,5 @@ rc=$?
 grep -E "VIOLATION|KNOWN|INCONCLUSIVE|^OK" /tmp/mutest-$pid.log | cut -c1-260 | head -8
 cp /tmp/ev-$pid.bak evidence/$pid.json 2>/dev/null
 git -C /repo checkout -- .
+rm -f /tmp/REPO_MUTATED
 echo "mutest rc=$rc wall=$(( $(date +%s) - t0 ))s property=$pid patch=$patch"
